@@ -133,6 +133,188 @@ type c05DynReq struct {
 	ConsistentRead            *bool
 	ConditionExpression       *string
 	ExpressionAttributeValues map[string]c05DynAttr
+	ExpressionAttributeNames  map[string]string
+}
+
+// c05Cond evaluates the subset of DynamoDB condition expressions a compare-and-swap register needs: attribute_exists /
+// attribute_not_exists, = and <> between attribute paths and :values, AND, OR, NOT and parentheses. Anything else is
+// reported as unsupported (the case then ends without a verdict).
+type c05Cond struct {
+	item        map[string][]byte // absent attribute: no entry
+	vals        map[string][]byte
+	names       map[string]string
+	usedVals    map[string]bool
+	usedNames   map[string]bool
+	toks        []string
+	pos         int
+	unsupported string
+	perr        string
+}
+
+func (c *c05Cond) eval(expr string) (bool, string) {
+	// tokens: ( ) , = <> identifiers (with # or : prefix)
+	i := 0
+	for i < len(expr) {
+		ch := expr[i]
+		switch {
+		case ch == ' ' || ch == '\t' || ch == '\n':
+			i++
+		case ch == '(' || ch == ')' || ch == ',' || ch == '=':
+			c.toks = append(c.toks, string(ch))
+			i++
+		case ch == '<' || ch == '>':
+			j := i + 1
+			for j < len(expr) && (expr[j] == '=' || expr[j] == '>') {
+				j++
+			}
+			c.toks = append(c.toks, expr[i:j])
+			i = j
+		case ch == '#' || ch == ':' || ch == '_' || (ch >= 'a' && ch <= 'z') || (ch >= 'A' && ch <= 'Z'):
+			j := i + 1
+			for j < len(expr) && (expr[j] == '_' || (expr[j] >= 'a' && expr[j] <= 'z') || (expr[j] >= 'A' && expr[j] <= 'Z') || (expr[j] >= '0' && expr[j] <= '9')) {
+				j++
+			}
+			c.toks = append(c.toks, expr[i:j])
+			i = j
+		default:
+			c.unsupported = "character " + strconv.Quote(string(ch))
+			return false, ""
+		}
+	}
+	v := c.or()
+	if c.pos != len(c.toks) && c.perr == "" && c.unsupported == "" {
+		c.perr = "Syntax error; token: \"" + c.toks[c.pos] + "\""
+	}
+	return v, c.perr
+}
+
+func (c *c05Cond) peek() string {
+	if c.pos < len(c.toks) {
+		return c.toks[c.pos]
+	}
+	return ""
+}
+
+func (c *c05Cond) or() bool {
+	v := c.and()
+	for strings.EqualFold(c.peek(), "OR") {
+		c.pos++
+		w := c.and()
+		v = v || w
+	}
+	return v
+}
+
+func (c *c05Cond) and() bool {
+	v := c.not()
+	for strings.EqualFold(c.peek(), "AND") {
+		c.pos++
+		w := c.not()
+		v = v && w
+	}
+	return v
+}
+
+func (c *c05Cond) not() bool {
+	if strings.EqualFold(c.peek(), "NOT") {
+		c.pos++
+		return !c.not()
+	}
+	return c.atom()
+}
+
+// operand returns the value of a path or :value operand and whether it exists.
+func (c *c05Cond) operand() ([]byte, bool) {
+	t := c.peek()
+	c.pos++
+	switch {
+	case t == "":
+		c.perr = "Syntax error; unexpected end of expression"
+	case strings.HasPrefix(t, ":"):
+		b, ok := c.vals[t]
+		if !ok {
+			c.perr = "An expression attribute value used in expression is not defined; attribute value: " + t
+		}
+		c.usedVals[t] = true
+		return b, ok
+	case strings.HasPrefix(t, "#"):
+		n, ok := c.names[t]
+		if !ok {
+			c.perr = "An expression attribute name used in the document path is not defined; attribute name: " + t
+			return nil, false
+		}
+		c.usedNames[t] = true
+		b, ok := c.item[n]
+		return b, ok
+	case t == "(" || t == ")" || t == "," || t == "=" || strings.HasPrefix(t, "<") || strings.HasPrefix(t, ">"):
+		c.perr = "Syntax error; token: \"" + t + "\""
+	default:
+		if c.peek() == "(" {
+			c.unsupported = "function " + t + " as an operand"
+			return nil, false
+		}
+		b, ok := c.item[t]
+		return b, ok
+	}
+	return nil, false
+}
+
+func (c *c05Cond) atom() bool {
+	t := c.peek()
+	switch {
+	case t == "(":
+		c.pos++
+		v := c.or()
+		if c.peek() != ")" {
+			if c.perr == "" {
+				c.perr = "Syntax error; missing )"
+			}
+			return false
+		}
+		c.pos++
+		return v
+	case t == "attribute_not_exists" || t == "attribute_exists":
+		c.pos++
+		if c.peek() != "(" {
+			c.perr = "Syntax error after " + t
+			return false
+		}
+		c.pos++
+		if strings.HasPrefix(c.peek(), ":") {
+			c.perr = "Invalid ConditionExpression: Operator or function requires a document path; operator or function: " + t
+			return false
+		}
+		_, exists := c.operand()
+		if c.peek() != ")" {
+			if c.perr == "" && c.unsupported == "" {
+				c.unsupported = "nested document path in " + t
+			}
+			return false
+		}
+		c.pos++
+		return exists == (t == "attribute_exists")
+	}
+	a, aok := c.operand()
+	op := c.peek()
+	c.pos++
+	switch op {
+	case "=", "<>":
+		b, bok := c.operand()
+		eq := aok && bok && bytes.Equal(a, b)
+		if op == "=" {
+			return eq
+		}
+		return aok && bok && !eq // a comparison with a missing attribute is false either way
+	case "":
+		if c.perr == "" {
+			c.perr = "Syntax error; a condition must be a comparison or a function"
+		}
+	default:
+		if c.perr == "" && c.unsupported == "" {
+			c.unsupported = "operator " + strconv.Quote(op)
+		}
+	}
+	return false
 }
 
 func c05DynBin(a c05DynAttr) ([]byte, bool) {
@@ -246,30 +428,48 @@ func (s *c05Store) serveDynamo(w http.ResponseWriter, r *http.Request) {
 				return
 			}
 			// unconditional write: applied.
-		case strings.TrimSpace(*q.ConditionExpression) == "attribute_not_exists(logID)":
-			rq.Cond = "create"
-			if len(q.ExpressionAttributeValues) != 0 {
-				s.dynErr(w, &rq, 400, validation, "Value provided in ExpressionAttributeValues unused in expressions")
-				return
-			}
-			if c.cur != nil {
-				s.dynErr(w, &rq, 400, "com.amazonaws.dynamodb.v20120810#ConditionalCheckFailedException", "The conditional request failed")
-				return
-			}
-		case strings.Join(strings.Fields(*q.ConditionExpression), " ") == "checkpoint = :old":
-			rq.Cond = "match"
-			old, ok := c05DynBin(q.ExpressionAttributeValues[":old"])
-			if !ok || len(q.ExpressionAttributeValues) != 1 {
-				s.dynErr(w, &rq, 400, validation, "Invalid ConditionExpression: An expression attribute value used in expression is not defined; attribute value: :old")
-				return
-			}
-			if c.cur == nil || !bytes.Equal(c.cur.val, old) {
-				s.dynErr(w, &rq, 400, "com.amazonaws.dynamodb.v20120810#ConditionalCheckFailedException", "The conditional request failed")
-				return
-			}
 		default:
-			s.dynErr(w, &rq, 400, validation, "Invalid ConditionExpression (not understood by the verification fake): "+*q.ConditionExpression)
-			return
+			// a condition expression over the stored item (attributes logID and checkpoint), evaluated like the service does
+			rq.Cond = "expr"
+			item := map[string][]byte{}
+			if c.cur != nil {
+				item["logID"], item["checkpoint"] = k, c.cur.val
+			}
+			ev := &c05Cond{item: item, vals: map[string][]byte{}, names: q.ExpressionAttributeNames, usedVals: map[string]bool{}, usedNames: map[string]bool{}}
+			for name, a := range q.ExpressionAttributeValues {
+				b, ok := c05DynBin(a)
+				if !ok {
+					ev.unsupported = "attribute value " + name + " is not a binary"
+				}
+				ev.vals[name] = b
+			}
+			holds, perr := ev.eval(*q.ConditionExpression)
+			switch {
+			case ev.unsupported != "":
+				// never a verdict about the backend: the fake cannot tell what the real service would do
+				fmt.Printf("VERIF-INCONCLUSIVE: the DynamoDB fake does not implement this condition expression (%s): %q\n", ev.unsupported, *q.ConditionExpression)
+				s.dynErr(w, &rq, 400, validation, "Invalid ConditionExpression (not understood by the verification fake): "+*q.ConditionExpression)
+				return
+			case perr != "":
+				s.dynErr(w, &rq, 400, validation, "Invalid ConditionExpression: "+perr)
+				return
+			}
+			for name := range ev.vals {
+				if !ev.usedVals[name] {
+					s.dynErr(w, &rq, 400, validation, "Value provided in ExpressionAttributeValues unused in expressions: keys: {"+name+"}")
+					return
+				}
+			}
+			for name := range q.ExpressionAttributeNames {
+				if !ev.usedNames[name] {
+					s.dynErr(w, &rq, 400, validation, "Value provided in ExpressionAttributeNames unused in expressions: keys: {"+name+"}")
+					return
+				}
+			}
+			if !holds {
+				s.dynErr(w, &rq, 400, "com.amazonaws.dynamodb.v20120810#ConditionalCheckFailedException", "The conditional request failed")
+				return
+			}
 		}
 		s.write(c, val)
 		c05DynWrite(w, 200, []byte("{}"))
